@@ -165,6 +165,15 @@ pub(super) fn sub2(a: &mut [BigDigit], b: &[BigDigit]) {
     let (b, done) = (false, 0);
 
     let mut borrow = b as u8;
+    #[cfg(num_bigint_verif)]
+    {
+        if done > 0 {
+            crate::verif::hit(crate::verif::SUB_ASM);
+        }
+        if done < len {
+            crate::verif::hit(crate::verif::SUB_TAIL);
+        }
+    }
 
     for (a, b) in a_lo[done..].iter_mut().zip(b_lo[done..].iter()) {
         borrow = sbb(borrow, *a, *b, a);
@@ -172,6 +181,8 @@ pub(super) fn sub2(a: &mut [BigDigit], b: &[BigDigit]) {
 
     if borrow != 0 {
         for a in a_hi {
+            #[cfg(num_bigint_verif)]
+            crate::verif::hit(crate::verif::SUB_PROP);
             borrow = sbb(borrow, *a, 0, a);
             if borrow == 0 {
                 break;
